@@ -107,4 +107,5 @@ class Timer:
         self.start()
 
     def _unset_task(self, task: asyncio.Future):
-        self._task = None
+        if self._task is task:
+            self._task = None
